@@ -270,18 +270,31 @@ def observe(ws, name, relmap, want_orphans=True):
     return obs
 
 
-def settle(ws, rels, timeout=5.0):
-    """waits until every job directory in `rels` shows a marker (.done / .failed / .pid): the starts in
-    progress are over.  Looks at files only."""
+def settle(ws, jobs, timeout=20.0):
+    """waits until the starts in progress are over: every job of `jobs` = [(rel, dep_rel or None)] that can
+    start (no dependency, or its dependency is done) shows a marker (.done / .failed / non-empty .pid).
+    Looks at files only.  Returns False if that did not happen in time."""
     t0 = time.time()
-    ws = Path(ws)
+    jp = Path(ws) / "jobs"
+
+    def marked(rel, pid_ok=True):
+        d = jp / rel
+        if any(d.glob("*.done")) or (pid_ok and any(d.glob("*.failed"))):
+            return True
+        return pid_ok and any(p.stat().st_size > 0 for p in d.glob("*.pid"))
+
+    ok = False
     while time.time() - t0 < timeout:
-        todo = [r for r in rels if not any((ws / "jobs" / r).glob("*.done")) and not any((ws / "jobs" / r).glob("*.failed"))
-                and not any((ws / "jobs" / r).glob("*.pid"))]
+        try:
+            todo = [r for r, dep in jobs if (dep is None or marked(dep, False)) and not marked(r)]
+        except OSError:
+            todo = [None]
         if not todo:
+            ok = True
             break
         time.sleep(0.005)
     time.sleep(0.03)
+    return ok
 
 
 PROBE = (
@@ -385,7 +398,7 @@ def agent_main(libdir):
                         objs[c["job"]] = o
                         rels[c["job"]] = rel
                         if c.get("settle"):
-                            settle(ws, [r for lab, r in rels.items() if not lab.startswith("e")])
+                            settle(ws, [(r, rels.get(lab.split(">")[1]) if lab.startswith("e") else None) for lab, r in rels.items()])
                         emit(ev="submitted", rel=rel)
                     except Exception as e:
                         emit(ev="submit-error", what=f"{type(e).__name__}: {e}")
@@ -503,6 +516,7 @@ class HistoryRunner:
         self.pending = {}  # p -> agent blocked in enter
         self.inside_agents = set()
         self.objs0 = {}
+        self.run_jobs = {}  # p -> [(rel, dep_rel)] submitted (with barrier) in the current run of p
         self.abort = None
 
     # -- helpers
@@ -553,6 +567,7 @@ class HistoryRunner:
                         rel, o = self.real.submit(xp0, self.objs0, op["kind"], op["x"], op.get("dep"), op.get("sync", True))
                         self.objs0[op["job"]] = o
                         self.relmap[rel] = op["job"]
+                        self.track(0, op, rel)
                         if op.get("settle"):
                             self.quiesce0()
                         self.record(idx, "submitted", obs=op.get("sync", True), orphans=bool(op.get("settle")))
@@ -573,14 +588,29 @@ class HistoryRunner:
                 self.agent_op(idx, op, kind, p)
         return "ok"
 
+    def track(self, p, op, rel):
+        if op.get("sync", True):
+            dep = op.get("dep") if op["kind"] == "e" else None
+            deprel = next((r for r, lab in self.relmap.items() if lab == dep), None) if dep else None
+            self.run_jobs.setdefault(p, []).append((rel, deprel))
+
+    def settle_agent(self, p):
+        """before a process ends or is made to die, the job starts in progress are allowed to finish: a death
+        in the middle of a start (empty .pid file, …) is the business of other properties (C10/C11) and would
+        stall later runs of the history.  Racy submissions (fresh jobs no later run touches) are exempt."""
+        if not settle(self.ws, self.run_jobs.get(p, [])):
+            self.abort = "unsettled"
+
     def quiesce0(self):
         """process 0 outlives its runs: before it aborts a run, the starts in progress are allowed to finish
         (a start interrupted by the stopped loop would keep the job's lock for the rest of the worker's
         life and stall later *agents*; a real process ends).  Looks at the job markers only."""
-        settle(self.ws, [rel for rel, lab in self.relmap.items() if lab in self.objs0 and not lab.startswith("e")])
+        if not settle(self.ws, self.run_jobs.get(0, [])):
+            self.abort = "unsettled"
 
     def block0(self, idx):
         self.objs0 = {}
+        self.run_jobs[0] = []
         self.real.release.clear()
         self.exit0 = None
 
@@ -602,6 +632,8 @@ class HistoryRunner:
         if not entered:
             self.record(idx, "stuck" if raised == "EnterTimeout" else "enter-error", raised=raised)
             self.abort = "process 0 could not enter"
+            return
+        if self.abort is not None and self.exit0 is None:
             return
         eidx = self.exit0 if self.exit0 is not None else idx
         if self.pending:
@@ -662,6 +694,7 @@ class HistoryRunner:
             ev = ag.expect({"submitted", "submit-error"}, 60)
             if ev and ev["ev"] == "submitted":
                 self.relmap[ev["rel"]] = op["job"]
+                self.track(p, op, ev["rel"])
                 self.record(idx, "submitted", obs=op.get("sync", True), orphans=bool(op.get("settle")))
             else:
                 self.record(idx, "submit-error", got=ev)
@@ -671,6 +704,7 @@ class HistoryRunner:
             ag.expect({"released"}, 30)
             self.record(idx, "released", obs=False)
         elif kind == "exit":
+            self.settle_agent(p)
             ag.send(cmd="exit", how=op["how"], kill_exit=op.get("kill_exit"))
             ev = ag.expect({"exited"}, 60)
             self.inside_agents.discard(p)
@@ -695,6 +729,7 @@ class HistoryRunner:
         elif kind == "kill":
             if ag.dead:  # it died inside __enter__ already
                 return
+            self.settle_agent(p)
             ag.kill(signal.SIGTERM if op.get("sig") == "TERM" else signal.SIGKILL)
             self.inside_agents.discard(p)
             if self.pending:
@@ -732,6 +767,19 @@ def worker_main(specfile, outfile):
     real = Real(spec["lib"])
     import faulthandler
 
+    if os.environ.get("C16_DEBUGSTATE"):  # diagnostic: state of the scheduler of a run that does not end
+
+        def dump():
+            while True:
+                time.sleep(float(os.environ["C16_DEBUGSTATE"]))
+                xp = real.experiment.CURRENT
+                if xp is not None:
+                    sys.stderr.write(f"STATE unfinished={xp.unfinishedJobs} exitMode={xp.exitMode} " + " ".join(
+                        f"[{j.relpath} {j.state} unsat={j.unsatisfied} ready={j._readyEvent.is_set()} fut={j._future}]"
+                        for j in xp.scheduler.jobs.values()) + "\n")
+                    sys.stderr.flush()
+
+        threading.Thread(target=dump, daemon=True).start()
     with open(outfile, "w") as out:
         for hist in spec["histories"]:
             # watchdog: a history that does not end is a harness error (exit 2 of the check), with the stacks
@@ -775,6 +823,7 @@ def gen_history(rng, hid, agents_ok=True, rich=True):
     ops = []
     nruns = rng.choice([2, 3, 3, 4, 4, 5, 6, 7]) if rich else rng.choice([2, 3, 4])
     next_agent = [1]
+    nracy = [0]
     takeover = None  # agent already inside (it was a pending contender)
 
     def new_agent():
@@ -843,8 +892,9 @@ def gen_history(rng, hid, agents_ok=True, rich=True):
                 contender = None
         # a racy last submission (no barrier) right before an abort
         if p != 0 and body and body[-1]["op"] == "submit" and contender is None and end in ("exc", "kill") and rng.random() < 0.4:
-            body[-1]["sync"] = False
-            body[-1]["settle"] = False
+            nracy[0] += 1
+            body[-1] = {"op": "submit", "p": p, "job": f"a{1000 + nracy[0]}", "kind": "a", "x": 1000 + nracy[0], "dep": None,
+                        "sync": False, "settle": False}
         ops += body
         if end in ("ok", "exc", "kbd", "sysexit"):
             ops.append({"op": "exit", "p": p, "how": end})
